@@ -24,10 +24,11 @@ import (
 // stepped in lockstep with the real Encoder and compared after every call.
 
 const (
-	c10Enum    = iota // one legal history H; every position x every fault class; Reset at later positions + legal tail
-	c10Random         // seeded history over the whole alphabet, legality not respected
-	c10Long           // long legal histories (runs of hundreds of identical drawing calls), decode oracle only
-	c10Exhaust        // every history up to a depth bound over an abstract alphabet of 16 representative calls
+	c10Enum     = iota // one legal history H; every position x every fault class; Reset at later positions + legal tail
+	c10Random          // seeded history over the whole alphabet, legality not respected
+	c10Long            // long legal histories (runs of hundreds of identical drawing calls), decode oracle only
+	c10Exhaust         // every history up to a depth bound over an abstract alphabet of 16 representative calls
+	c10AdjSweep        // every adjustment value 0..255 on every call that takes one, in every protocol state
 )
 
 // c10Alphabet is the abstract alphabet of the exhaustive mode: one or two
@@ -442,6 +443,47 @@ func c10Run(ctx *Ctx, t *tape.Tape) *report.Violation {
 		return v
 	}
 	switch mode {
+	case c10AdjSweep:
+		// the whole uint8 range of the adjustment argument, not a few
+		// representatives: on each of the three calls that take one, plain and
+		// incrementing, on the zero value / after Reset / inside an open path,
+		// followed by a legal remainder
+		adj := uint8(t.Intn(256))
+		calls := []world.Op{
+			{K: world.KSetCReg, U: adj, C: ivg.RGBAColor(color.RGBA{0x40, 0x80, 0xc0, 0xff})},
+			{K: world.KSetCReg, U: adj, Incr: true, C: ivg.RGBAColor(color.RGBA{0x40, 0x80, 0xc0, 0xff})},
+			{K: world.KSetNReg, U: adj, F: [6]float32{0.5}},
+			{K: world.KSetNReg, U: adj, Incr: true, F: [6]float32{0.5}},
+			{K: world.KStartPath, U: adj, F: [6]float32{-8, -8}},
+		}
+		prefixes := [][]world.Op{
+			nil,
+			{{K: world.KReset, VB: ivg.DefaultViewBox, Pal: &ivg.DefaultPalette}},
+			{{K: world.KReset, VB: ivg.ViewBox{MinX: -16, MinY: -16, MaxX: 16, MaxY: 16}, Pal: &ivg.DefaultPalette}, {K: world.KSetCSel, U: 7}},
+			{{K: world.KStartPath, U: 1, F: [6]float32{4, 4}}, {K: world.KAbsLineTo, F: [6]float32{8, 4}}},
+		}
+		for ci := range calls {
+			for pi := range prefixes {
+				h := append([]world.Op(nil), prefixes[pi]...)
+				h = append(h, calls[ci])
+				m := modesOf(h)
+				if !m[len(h)] {
+					h = append(h, world.Op{K: world.KStartPath, F: [6]float32{1, 1}})
+				}
+				h = append(h, world.Op{K: world.KAbsLineTo, F: [6]float32{2, 3}}, world.Op{K: world.KClosePathEndPath})
+				if v := checkHistory(ctx, h, true); v != nil {
+					v = trace(v, h, fmt.Sprintf("adjustment sweep: adj=%d", adj))
+					v.Tape, v.KeepPrefix = []uint64{c10AdjSweep, uint64(adj)}, 2
+					return v
+				}
+				if st != nil {
+					st.Add("evaluations", 1)
+					st.Add("adj_sweep_histories", 1)
+					st.Distinct(fnvAdd(uint64(adj)<<8|uint64(ci)<<4|uint64(pi), 17))
+				}
+			}
+		}
+		return nil
 	case c10Exhaust:
 		// block b of the enumeration: histories are numbered in base 16, all
 		// lengths 1..depth, shorter ones first
@@ -755,9 +797,9 @@ func init() {
 		Level: "fault_enumeration",
 		Cases: func(ctx *Ctx) int {
 			if ctx.Tier == "thorough" {
-				return 120000 + 4000000 + 400000 + c10ExhaustBlocks(ctx.Tier)
+				return 120000 + 4000000 + 400000 + c10ExhaustBlocks(ctx.Tier) + 256
 			}
-			return 4000 + 150000 + 20000 + c10ExhaustBlocks(ctx.Tier)
+			return 4000 + 150000 + 20000 + c10ExhaustBlocks(ctx.Tier) + 256
 		},
 		Prefix: func(ctx *Ctx, i int) []uint64 {
 			nEnum := 4000
@@ -781,12 +823,15 @@ func init() {
 			if i < nEnum+nRandom+nLong {
 				return []uint64{c10Long}
 			}
-			return []uint64{c10Exhaust, uint64(i - nEnum - nRandom - nLong), 0}
+			if i -= nEnum + nRandom + nLong; i < c10ExhaustBlocks(ctx.Tier) {
+				return []uint64{c10Exhaust, uint64(i), 0}
+			}
+			return []uint64{c10AdjSweep, uint64(i - c10ExhaustBlocks(ctx.Tier))}
 		},
 		Run: c10Run,
 		Describe: func(tier string, s *report.Stats, cases int) Evidence {
 			return Evidence{
-				Rule: "Cases are call histories on the real encode.Encoder with the 4-state reference automaton (Initial/Styling/Drawing/Error, written from the property text) stepped in lockstep and compared through a Bytes probe after every call. (a) Fault enumeration: for each sampled legal history H (lattice arguments, probes at drawn positions) one out-of-protocol call of each of 7 classes is injected at every position of H; for each such faulted history a Reset (restart) is placed at every later position (all positions when the history has <=14 calls, three drawn ones otherwise) followed by a legal tail that must decode to exactly itself. (b) Exhaustive: every history up to depth 5 (quick) / 7 (thorough) over an abstract alphabet of 16 representative calls, as the property's quantifier asks. (c) Long legal histories with runs of 37-300 identical drawing calls (decode oracle). (d) Seeded histories over the whole alphabet (Reset, observers, resolution flag, legal and illegal calls) with no regard to legality. Every history is run three ways: probed on the zero value, unprobed (probe-free), and probed on an Encoder reset with the default metadata (zero-value). distinct_nontrivial = hash-bitmap count of distinct histories that contain at least one fault or a Reset after the first call.",
+				Rule: "Cases are call histories on the real encode.Encoder with the 4-state reference automaton (Initial/Styling/Drawing/Error, written from the property text) stepped in lockstep and compared through a Bytes probe after every call. (a) Fault enumeration: for each sampled legal history H (lattice arguments, probes at drawn positions) one out-of-protocol call of each of 7 classes is injected at every position of H; for each such faulted history a Reset (restart) is placed at every later position (all positions when the history has <=14 calls, three drawn ones otherwise) followed by a legal tail that must decode to exactly itself. (b) Exhaustive: every history up to depth 5 (quick) / 7 (thorough) over an abstract alphabet of 16 representative calls, as the property's quantifier asks. (b') every adjustment value 0..255 on SetCReg/SetNReg (plain and incrementing) and StartPath, on the zero value, after Reset and inside an open path, each followed by a legal remainder. (c) Long legal histories with runs of 37-300 identical drawing calls (decode oracle). (d) Seeded histories over the whole alphabet (Reset, observers, resolution flag, legal and illegal calls) with no regard to legality. Every history is run three ways: probed on the zero value, unprobed (probe-free), and probed on an Encoder reset with the default metadata (zero-value). distinct_nontrivial = hash-bitmap count of distinct histories that contain at least one fault or a Reset after the first call.",
 				Extra: map[string]interface{}{
 					"fault_kinds_fired":                    s.SortedCounters("fault_"),
 					"histories_driven_on_the_real_encoder": s.Counters["histories_driven"],
